@@ -4,6 +4,7 @@ import (
 	"cosmossdk.io/errors"
 	"cosmossdk.io/math"
 	"time"
+	"unicode/utf8"
 
 	sdk "github.com/cosmos/cosmos-sdk/types"
 )
@@ -51,6 +52,10 @@ func (msg *MsgCreateVestingPool) ValidateBasic() error {
 func ValidateCreateVestingPool(address string, vestingPoolName string, amount math.Int, duration time.Duration) (accAddress sdk.AccAddress, error error) {
 	if vestingPoolName == "" {
 		return nil, errors.Wrap(ErrParam, "add vesting pool empty name")
+	}
+	if !utf8.ValidString(vestingPoolName) {
+		// genesis export is JSON: a name that is not valid UTF-8 would come back as a different name after an import
+		return nil, errors.Wrap(ErrParam, "add vesting pool - name is not valid UTF-8")
 	}
 	if amount.IsNil() {
 		return nil, errors.Wrap(ErrAmount, "add vesting pool - amount cannot be nil")
